@@ -129,6 +129,16 @@ LAM = lambda: 0  # noqa: E731
 import enum  # noqa: E402
 
 
+class OddRepr:
+  """A non-literal object whose repr merely LOOKS like the beginning of config syntax."""
+
+  def __init__(self, text):
+    self.text = text
+
+  def __repr__(self):
+    return self.text
+
+
 class Precision(enum.IntEnum):
   HALF = 16
 
@@ -181,6 +191,11 @@ VALUES = {
     'int_subclass': (MyInt(5), False), 'str_subclass': (MyStr('s'), False), 'bytes_subclass': (MyBytes(b'b'), False),
     'float_subclass': (MyFloat(1.5), False), 'list_with_enum': ([1, Precision.HALF], False),
     'plain_enum': (enum.Enum('E', 'X').X, False),
+    # reprs that do not tokenize / name nothing known / cannot be computed: no literal form, so they are omitted
+    'repr_unknown_reference': (OddRepr('@c06_no_such_thing()'), False), 'repr_unknown_ref_uneval': (OddRepr('@c06nothere'), False),
+    'repr_unbalanced': (OddRepr('(1, 2'), False), 'repr_open_string': (OddRepr('"""abc'), False),
+    'repr_open_call': (OddRepr('@c06.g('), False), 'repr_unhashable_key': (OddRepr('{[1]: 2}'), False),
+    'list_with_odd_repr': ([1, OddRepr("[1, '")], False), 'huge_int': (10 ** 5000, False),
 }
 T0 = ('', 'c06.f', 'x')
 TARGETS = [T0, ('a', 'c06.f', 'x'), ('a/b', 'c06.f', 'y'), ('', 'pkg.mod.dup', 'x'), ('', 'other.mod.dup', 'x'),
@@ -194,7 +209,10 @@ SAME_NAMED_METHODS = [('', 'east.jobs.Worker.run', 'speed'), ('', 'west.jobs.Wor
 # a method bound under several scopes; macros / parameters bound to falsy literals
 EXTRA = [(('s', 'c06.K.meth', 'v'), 'int'), (('a/b', 'c06.K.meth', 'v'), 'str_short'), (('zz', 'c06.K.meth', 'v'), 'obj'),
          (('mac', 'gin.macro', 'value'), 'none'), (('a/b', 'gin.macro', 'value'), 'false'), (('mac0', 'gin.macro', 'value'), 'zero'),
-         (('', 'c06.g', 't'), 'none'), (('me', 'gin.macro', 'value'), 'empty_str')]
+         (('', 'c06.g', 't'), 'none'), (('me', 'gin.macro', 'value'), 'empty_str'),
+         # macros named like the contextual keywords of the statement grammar
+         (('include', 'gin.macro', 'value'), 'list_long'), (('import', 'gin.macro', 'value'), 'str_short'),
+         (('from', 'gin.macro', 'value'), 'int')]
 POOL = ([(T0, k) for k in VALUES] + [(t, k) for t in TARGETS[1:] for k in OTHER_KINDS] +
         [(t, k) for t in SAME_NAMED_METHODS for k in ('int', 'obj')] + EXTRA)
 WIDTHS = lambda ci: [ci + 1, ci + 2, 10, 20, 40, 80, 200]  # noqa: E731
@@ -573,8 +591,36 @@ def gen(tier):
     for how in ('bind', 'reference_then_bind'):
       yield ['dotted', scope, how]
   yield ['dynorder']
+  yield ['refkeys']
   yield ['rereg', True]
   yield ['rereg', False]
+
+
+# ------------------------------------------------------------------------- a dict whose keys are references / macros
+def run_refkeys(case, res):
+  """Equal dicts are one value: the order in which a dict with reference keys was written must not show in the text."""
+  items = ['@c06.g: 1', '@c06.f: 2', '@s/c06.g(): 3', '%mac: 4']
+  plain = ["'b': 1", "'a': {'z': 0, 'y': [1]}", "'c': 3", "'aa': None"]
+  texts = {}
+  for perm in itertools.permutations(range(len(items))):
+    harness.hard_reset()
+    gin.parse_config('mac = 9\nc06.f.x = {%s}\nc06.f.y = {%s}\n' % (', '.join(items[i] for i in perm),
+                                                                    ', '.join(plain[i] for i in perm)))
+    res.case(('refkeys', perm), True)
+    s1 = gin.config_str()
+    harness.hard_reset()
+    gin.parse_config(s1)
+    s2 = gin.config_str()
+    texts[perm] = (s1, s2)
+  firsts = {t[0] for t in texts.values()}
+  if len(firsts) != 1:
+    a, b = sorted(firsts)[:2]
+    res.violation('text_depends_on_dict_order', 'a dict with reference keys written in different orders serialises '
+                  'differently:\n%s\n--- vs\n%s' % (a, b), case)
+  elif any(t[0] != t[1] for t in texts.values()):
+    res.violation('second_text_differs', 'dict with reference keys: serialising again changes the text', case)
+  else:
+    res.w('reference_keys_canonical')
 
 
 # --------------------------------------------------------------------- a referenced function is registered again
@@ -702,6 +748,8 @@ def run_shard(i, tier):
         run_dotted(c, res)
       elif c[0] == 'dynorder':
         run_dynorder(c, res)
+      elif c[0] == 'refkeys':
+        run_refkeys(c, res)
       elif c[0] == 'rereg':
         run_rereg(c, res)
       else:
@@ -726,6 +774,8 @@ def replay(desc):
     run_dotted(desc, res)
   elif desc[0] == 'dynorder':
     run_dynorder(desc, res)
+  elif desc[0] == 'refkeys':
+    run_refkeys(desc, res)
   elif desc[0] == 'rereg':
     run_rereg(desc, res)
   else:
